@@ -4,30 +4,6 @@ From BP Require Import Base.Prelude Model.Types Model.Varint Model.Scalar Model.
 From BP Require Import Model.Object Model.Eq Model.TimeCore Model.Encode Model.WellFormed Model.C06Obs.
 From BP Require Import gen.Tables Spec.Varint Spec.C06Wire Proofs.BytesP Proofs.VarintP.
 
-(* ---- the loop of Message.dump, one field at a time ---- *)
-Definition here (sc : schema) (cur : list (option nat)) (i : nat) (x : pv) (f : fdesc) : result (list byte) :=
-  match group_selects cur f i with
-  | Some false => Ok []
-  | sel =>
-      match x with
-      | PNone => Ok []
-      | PPlaceholder =>
-          match default_of sc f with
-          | PNone => Ok []
-          | d => emit_field (fun _ => Ok []) sc f sel d
-          end
-      | _ => emit_field (enc_obj sc) sc f sel x
-      end
-  end.
-
-Fixpoint body (sc : schema) (cur : list (option nat)) (i : nat) (raw : list pv) (fs : list fdesc)
-  : result (list byte) :=
-  match raw, fs with
-  | x :: raw', f :: fs' =>
-      do h <- here sc cur i x f; do rest <- body sc cur (S i) raw' fs'; Ok (h ++ rest)
-  | _, _ => Ok []
-  end.
-
 Lemma enc_obj_body sc c raw sow unk cur :
   enc_obj sc (Obj c raw sow unk cur) =
   (do b <- body sc cur 0 raw (cfields (get_class sc c)); Ok (b ++ unk)).
@@ -116,10 +92,6 @@ Proof.
   repeat split; assumption.
 Qed.
 
-(* a byte string that starts with the tag (number, wire type) of a record *)
-Definition starts_with_tag (num wt : Z) (bs : list byte) : Prop :=
-  exists tb rest, VarintRep (num * 8 + wt) tb /\ bs = tb ++ rest.
-
 Lemma starts_with_tag_nonempty num wt bs : starts_with_tag num wt bs -> bs <> [].
 Proof.
   intros (tb & rest & (Sh & _) & ->). destruct tb; [cbn in Sh; tauto|discriminate].
@@ -169,11 +141,6 @@ Proof.
 Qed.
 
 (* ---- implicit presence ---- *)
-(* plain scalar / enum (and the value types datetime / timedelta): no optional, no oneof, no message object *)
-Definition implicit_field (f : fdesc) : Prop :=
-  fgroup f = None /\ fopt f = false /\
-  exists t, fhint f = HPlain t /\ forall c, t <> PyMsg c.
-
 Lemma implicit_default_not_msg sc f v :
   implicit_field f -> is_default sc f v = true -> forall o, v <> PMsg o.
 Proof.
@@ -237,15 +204,6 @@ Proof.
 Qed.
 
 (* ---- explicit presence ---- *)
-Definition is_value (x : pv) : Prop := x <> PNone /\ x <> PPlaceholder.
-Definition singular_value (x : pv) : Prop := forall l, x <> PList l.
-
-(* the three kinds the property names: proto3 optional and wrapper fields (never oneof members in a
-   well-formed schema), and the member its oneof group selects *)
-Definition explicit_kind (cur : list (option nat)) (i : nat) (f : fdesc) : Prop :=
-  (fgroup f = None /\ (fopt f = true \/ exists w t, fwraps f = Some w /\ fhint f = HOptional t))
-  \/ group_selects cur f i = Some true.
-
 Lemma emit_field_forced enc sc f sel x bs :
   1 <= fnum f < 2 ^ 29 -> fmap f = None -> singular_value x ->
   (is_default sc f x = false \/ is_some (fgroup f) || fopt f = true) ->
@@ -294,9 +252,6 @@ Proof.
 Qed.
 
 (* ---- plain sub-message fields ---- *)
-Definition plain_msg_field (f : fdesc) : Prop :=
-  fgroup f = None /\ fopt f = false /\ fwraps f = None /\ fty f = TMessage.
-
 Theorem submessage_here sc cur i ch f bs :
   1 <= fnum f < 2 ^ 29 -> plain_msg_field f ->
   here sc cur i (PMsg ch) f = Ok bs ->
